@@ -7,8 +7,8 @@
    the real code under ASan/UBSan on every check (tie T2).
    This file contains only statements, `exact` proofs and Print Assumptions. *)
 From Coq Require Import ZArith List Bool.
-From ScV Require Import Base.CInt Gen.Codec C06.Res C06.B64Model C06.B64Proofs
-  C07.PuffModel C07.DecodeModel C07.PuffSafe C07.PuffHuffman C07.DecodeSafe.
+From ScV Require Import Base.CInt Gen.Codec Gen.PuffC07 Gen.DecodeC07 C06.Res C06.B64Model C06.B64Proofs C06.StoredModel
+  C07.PuffModel C07.DecodeModel C07.PuffSafe C07.PuffHuffman C07.DecodeSafe C07.PuffGen C07.DecodeGen C07.PuffCodes C07.DecodePrefix.
 Import ListNotations.
 Local Open Scope Z_scope.
 
@@ -161,3 +161,822 @@ Proof. vm_compute. reflexivity. Qed.
 (* a distance reaching before the start of the output is an error, not an access *)
 Example C07_ex_toofar : puff false 8 8 [3; 2; 0] 3 = Ok (-11, 8, 3, []).
 Proof. vm_compute. reflexivity. Qed.
+
+(* --- return codes of sc_puff, truncated input, the terminating NUL ------------------------------------------------------------ *)
+(* doc_code e := -11 <= e <= -1 \/ e = 1 \/ e = 2  (the codes documented in sc_puff.c).  NO precondition: every source list, every
+   claimed length, every destination.  With a code the model hands *destlen / *sourcelen back unchanged and delivers no byte
+   (for the codes 1 and 2 this is the C behaviour; for a negative code the C function stores s.outcnt / s.incnt, see C07_gen_puff_finish). *)
+Theorem C07_puff_codes : forall nil outcap destlen src sourcelen,
+  match puff nil outcap destlen src sourcelen with
+  | Ok (rc, dl, sl, ob) => (rc = 0 \/ doc_code rc) /\ (rc <> 0 -> dl = destlen /\ sl = sourcelen /\ ob = [])
+  | Err _ => False
+  | _ => True
+  end.
+Proof. exact puff_codes. Qed.
+Print Assumptions C07_puff_codes.
+
+Example C07_puff_codes_ex : puff false 4 4 [7] 1 = Ok (-1, 4, 1, []) /\ puff false 4 4 [] 0 = Ok (2, 4, 0, []).
+Proof. exact puff_codes_ex. Qed.
+
+(* EVERY cut point of EVERY text, with and without a NUL appended: error -1 or a result within header, maximum and view; never Oob *)
+Theorem C07_decode_prefixes_safe : forall text out maxsz, bytes text -> len text + 1 < DATA_MAX -> out_ok out -> 0 <= maxsz ->
+  forall k, decode_post out maxsz (sc_decode (firstn k text) out maxsz) /\
+            decode_post out maxsz (sc_decode (firstn k text ++ [0]) out maxsz).
+Proof. exact decode_prefixes_safe. Qed.
+Print Assumptions C07_decode_prefixes_safe.
+
+(* never shorter data: an accepted truncation that keeps the 12 header characters delivers exactly the size the full text declares *)
+Theorem C07_decode_prefix_size : forall unc text out maxsz k n b sz fc,
+  (12 <= k)%nat -> len text + 1 < BIG -> 0 < o_esz out ->
+  sc_decode_with unc (firstn k text ++ [0]) out maxsz = Ok (n, b) -> sc_decode_info text = Ok (sz, fc) ->
+  sz = n * o_esz out /\ fc = 122.
+Proof. exact decode_prefix_size. Qed.
+Print Assumptions C07_decode_prefix_size.
+
+Example C07_prefix_ex : sc_decode (firstn 20 ex_data ++ [0]) (mkOut true 1 0) 0 = Err (-1).
+Proof. exact prefix_ex. Qed.
+
+(* sc_puff on every truncation: the memory ends with the claimed length, or goes on behind it *)
+Theorem C07_puff_truncations_safe : forall nil outcap destlen src, bytes src -> len src < BIG ->
+  (nil = false -> 0 <= destlen <= outcap /\ outcap < BIG) ->
+  forall k, puff_post nil destlen (len (firstn k src)) (puff nil outcap destlen (firstn k src) (len (firstn k src))) /\
+            (Z.of_nat k <= len src -> puff_post nil destlen (Z.of_nat k) (puff nil outcap destlen src (Z.of_nat k))).
+Proof. exact puff_truncations_safe. Qed.
+Print Assumptions C07_puff_truncations_safe.
+
+(* the code characters of every line end at least 3 bytes in front of the end of the array: the terminating NUL is never read *)
+Theorem C07_decode_reads_before_nul : forall E zlin,
+  1 <= E < BIG -> dec_guard_short E (dec_base64_lines E) = false -> 0 <= zlin < dec_base64_lines E ->
+  let L := dec_base64_lines E in
+  let ipos := 78 * zlin in
+  let irem := dec_irem E L - 76 * zlin in
+  0 <= ipos /\ ipos + dec_lein irem <= E - 1 - 2 * (L - zlin) /\ ipos + dec_lein irem <= E - 3.
+Proof. exact decode_reads_before_nul. Qed.
+Print Assumptions C07_decode_reads_before_nul.
+
+Theorem C07_decode_line_moves : forall ipos irem opos ocnt, 76 <= irem < BIG -> 0 <= ocnt < BIG ->
+  dec_line_full ipos irem opos ocnt = (57, ipos + 78, irem - 76, opos + 57, ocnt + 57, 0).
+Proof. exact decode_line_moves. Qed.
+Print Assumptions C07_decode_line_moves.
+
+(* --- tie T1: the models compute what the slices generated from the CURRENT sc_puff.c, cdecode.c, sc_io.c compute ------------
+   (Gen/PuffC07.v, Gen/DecodeC07.v, regenerated on every run by tools/c2g/groups_C07.py; proofs in C07/PuffGen.v, C07/DecodeGen.v).
+   A loop of the model is tied by ONE unfolding = the generated step (test, body, increment); the memories the C code reads
+   are functions Z -> Z with hypotheses that they hold what the model's lists hold; the ranges are those in which C's
+   int / unsigned / long arithmetic and the model's Z arithmetic coincide. *)
+Theorem C07_gen_bits_step :
+  forall (f : nat) (c : pcfg) (s : pstate) (val need x : Z) (r : list Z) (inb : Z -> Z),
+    p_in s = x :: r ->
+    inb (p_incnt s) = x ->
+    byte x ->
+    0 <= p_bitcnt s <= 48 ->
+    bits_loop (S f) c s val need =
+    (let
+     '(jumped, val', incnt', bitcnt', stop) := puff_bits_step inb (p_bitcnt s) need val (p_incnt s) (c_inlen c) in
+      if stop =? 0
+      then
+       bits_loop f c {| p_out := p_out s; p_outcnt := p_outcnt s; p_in := r; p_incnt := incnt'; p_bitbuf := p_bitbuf s; p_bitcnt := bitcnt' |}
+         val' need
+      else if jumped =? 0 then Ok (s, val) else Err 2).
+Proof. exact gen_bits_step. Qed.
+Print Assumptions C07_gen_bits_step.
+
+Theorem C07_gen_bits_shape :
+  forall (c : pcfg) (s : pstate) (need : Z),
+    bits c s need =
+    ' (s1, val) <- bits_loop 4 c s (puff_bits_init (p_bitbuf s)) need;;
+    Ok (Z.land val (shl 1 need - 1), set_bits s1 (shr val need) (p_bitcnt s1 - need)).
+Proof. exact gen_bits_shape. Qed.
+Print Assumptions C07_gen_bits_shape.
+
+Theorem C07_gen_bits_take :
+  forall val need bitcnt : Z,
+    0 <= need <= 30 ->
+    0 <= val < 2 ^ (31 + need) ->
+    0 <= bitcnt < 64 -> puff_bits_take val need bitcnt = (Z.land val (shl 1 need - 1), 1, shr val need, bitcnt - need, 1).
+Proof. exact gen_bits_take. Qed.
+Print Assumptions C07_gen_bits_take.
+
+Theorem C07_gen_stored :
+  forall (c : pcfg) (s : pstate) (inb : Z -> Z) (b0 b1 b2 b3 : Z) (rest : list Z),
+    p_in s = b0 :: b1 :: b2 :: b3 :: rest ->
+    byte b0 ->
+    byte b1 ->
+    byte b2 ->
+    byte b3 ->
+    0 <= p_incnt s < 2 ^ 62 ->
+    inb (p_incnt s) = b0 -> inb (p_incnt s + 1) = b1 -> inb (p_incnt s + 2) = b2 -> inb (p_incnt s + 3) = b3 -> stored c s = stored_gen c s inb.
+Proof. exact gen_stored. Qed.
+Print Assumptions C07_gen_stored.
+
+Theorem C07_gen_stored_copy_step :
+  forall (inb : Z -> Z) (ln incnt outcnt : Z),
+    0 < ln < 2 ^ 32 ->
+    0 <= incnt < 2 ^ 63 ->
+    0 <= outcnt < 2 ^ 63 ->
+    puff_stored_copy_step inb ln incnt outcnt = (ln, outcnt, inb incnt, ln - 1, incnt + 1, outcnt + 1, 0) /\
+    puff_stored_copy_step inb 0 incnt outcnt = (0, 0, 0, u32 (-1), incnt, outcnt, 1).
+Proof. exact gen_stored_copy_step. Qed.
+Print Assumptions C07_gen_stored_copy_step.
+
+Theorem C07_gen_decode_init :
+  forall (c : pcfg) (h : huff) (s : pstate),
+    decode c h s =
+    (let
+     '(bitbuf, lft, index, first, code, ln, next, _) := puff_decode_init (p_bitbuf s) (p_bitcnt s) 0 in
+      decode_loop 40 c h s bitbuf lft code first index ln next).
+Proof. exact gen_decode_init. Qed.
+Print Assumptions C07_gen_decode_init.
+
+Theorem C07_gen_decode_step :
+  forall (f : nat) (c : pcfg) (h : huff) (s : pstate) (bitbuf lft code first index ln next : Z) (cnt_at symf inb : Z -> Z) (cntv : Z),
+    rd (h_count h) next = Ok cntv ->
+    cnt_at next = cntv ->
+    0 <= cntv < 32768 ->
+    (forall i v : Z, rd (h_symbol h) i = Ok v -> symf i = v) ->
+    (forall (x : Z) (r : list Z), p_in s = x :: r -> inb (p_incnt s) = x /\ byte x) ->
+    ((Z.lor code (Z.land bitbuf 1) - cntv <? first) = true ->
+     exists v : Z, rd (h_symbol h) (index + (Z.lor code (Z.land bitbuf 1) - first)) = Ok v) ->
+    (lft = 0 -> ln <> 16 -> p_incnt s <> c_inlen c -> p_in s <> []) ->
+    0 <= lft < 2 ^ 31 ->
+    0 <= code < 2 ^ 29 ->
+    0 <= first < 2 ^ 29 ->
+    0 <= index < 2 ^ 29 ->
+    1 <= ln <= 16 ->
+    0 <= bitbuf < 2 ^ 31 ->
+    0 <= p_bitcnt s < 64 ->
+    0 <= p_incnt s < 2 ^ 63 ->
+    decode_loop (S f) c h s bitbuf lft code first index ln next =
+    (let
+     '(go, retv, returned, lft', code', bitbuf', _, next', sbb, sbc, index', first', ln', _) :=
+      puff_decode_bit_step cnt_at symf lft code bitbuf 0 next (p_bitbuf s) (p_bitcnt s) index first ln in
+      if negb (go =? 0)
+      then if returned =? 1 then Ok (retv, set_bits s sbb sbc) else decode_loop f c h s bitbuf' lft' code' first' index' ln' next'
+      else
+       let
+       '(jumped, lft2, bitbuf2, incnt2, stop2) := puff_decode_refill inb ln bitbuf (p_incnt s) (c_inlen c) in
+        if stop2 =? 1
+        then if jumped =? 1 then Err 2 else let '(rv, _, _) := puff_decode_fail in Err rv
+        else
+         decode_loop f c h
+           {| p_out := p_out s; p_outcnt := p_outcnt s; p_in := tl (p_in s); p_incnt := incnt2; p_bitbuf := p_bitbuf s; p_bitcnt := p_bitcnt s |}
+           bitbuf2 lft2 code first index ln next).
+Proof. exact gen_decode_step. Qed.
+Print Assumptions C07_gen_decode_step.
+
+Theorem C07_gen_construct_zero :
+  forall (k : nat) (i : Z) (cnt : list Z),
+    0 <= i <= 15 ->
+    zero_counts (S k) i cnt = (let '(widx, wval, i', _) := puff_construct_zero_step i in ' cnt1 <- wr cnt widx wval;; zero_counts k i' cnt1).
+Proof. exact gen_construct_zero. Qed.
+Print Assumptions C07_gen_construct_zero.
+
+Theorem C07_gen_construct_zero_bounds :
+  puff_construct_zero_init = (0, 0) /\ puff_construct_zero_step 16 = (0, 0, 16, 1).
+Proof. exact gen_construct_zero_bounds. Qed.
+Print Assumptions C07_gen_construct_zero_bounds.
+
+Theorem C07_gen_construct_count :
+  forall (k : nat) (sym : Z) (lengths : list Z) (loff : Z) (cnt : list Z) (n : Z) (lf cf : Z -> Z) (l v : Z),
+    rd lengths (loff + sym) = Ok l ->
+    rd cnt l = Ok v ->
+    lf sym = l ->
+    cf l = v ->
+    0 <= sym < n ->
+    n < 2 ^ 30 ->
+    - 2 ^ 30 <= v < 2 ^ 30 ->
+    count_lengths (S k) sym lengths loff cnt =
+    (let '(widx, wval, sym', _) := puff_construct_count_step lf cf sym n in ' cnt1 <- wr cnt widx wval;; count_lengths k sym' lengths loff cnt1).
+Proof. exact gen_construct_count. Qed.
+Print Assumptions C07_gen_construct_count.
+
+Theorem C07_gen_construct_count_bounds :
+  forall (lf cf : Z -> Z) (n : Z), puff_construct_count_init = (0, 0) /\ puff_construct_count_step lf cf n n = (0, 0, n, 1).
+Proof. exact gen_construct_count_bounds. Qed.
+Print Assumptions C07_gen_construct_count_bounds.
+
+Theorem C07_gen_construct_left :
+  forall (k : nat) (ln : Z) (cnt : list Z) (lft : Z) (cf : Z -> Z) (v : Z),
+    rd cnt ln = Ok v ->
+    cf ln = v ->
+    1 <= ln <= 15 ->
+    0 <= lft < 2 ^ 29 ->
+    - 2 ^ 30 <= v < 2 ^ 30 ->
+    check_left (S k) ln cnt lft =
+    (let
+     '(retv, returned, lft', ln', _) := puff_construct_left_step cf ln lft in if returned =? 1 then Ok (inl retv) else check_left k ln' cnt lft').
+Proof. exact gen_construct_left. Qed.
+Print Assumptions C07_gen_construct_left.
+
+Theorem C07_gen_construct_left_bounds :
+  forall (cf : Z -> Z) (lft : Z),
+    puff_construct_left_init = (1, 0) /\ puff_construct_left0 = (1, 0) /\ puff_construct_left_step cf 16 lft = (0, 0, lft, 16, 1).
+Proof. exact gen_construct_left_bounds. Qed.
+Print Assumptions C07_gen_construct_left_bounds.
+
+Theorem C07_gen_construct_offs :
+  forall (k : nat) (ln : Z) (cnt offs : list Z) (cf off : Z -> Z) (o v : Z),
+    rd offs ln = Ok o ->
+    rd cnt ln = Ok v ->
+    off ln = o ->
+    cf ln = v ->
+    1 <= ln < 15 ->
+    - 2 ^ 29 <= o < 2 ^ 29 ->
+    - 2 ^ 29 <= v < 2 ^ 29 ->
+    make_offs (S k) ln cnt offs =
+    (let '(widx, wval, ln', _) := puff_construct_offs_step off cf ln in ' offs1 <- wr offs widx wval;; make_offs k ln' cnt offs1).
+Proof. exact gen_construct_offs. Qed.
+Print Assumptions C07_gen_construct_offs.
+
+Theorem C07_gen_construct_offs_bounds :
+  forall off cf : Z -> Z,
+    puff_construct_offs_init = (1, 0) /\ puff_construct_offs1 = (1, 0, 0) /\ puff_construct_offs_step off cf 15 = (0, 0, 15, 1).
+Proof. exact gen_construct_offs_bounds. Qed.
+Print Assumptions C07_gen_construct_offs_bounds.
+
+Theorem C07_gen_construct_fill :
+  forall (k : nat) (sym : Z) (lengths : list Z) (loff : Z) (offs symtab : list Z) (n : Z) (lf off : Z -> Z) (l o : Z),
+    rd lengths (loff + sym) = Ok l ->
+    lf sym = l ->
+    (l <> 0 -> rd offs l = Ok o /\ off l = o) ->
+    0 <= sym < n ->
+    n <= 32768 ->
+    - 2 ^ 29 <= o < 2 ^ 29 ->
+    fill_symbols (S k) sym lengths loff offs symtab =
+    (let
+     '(ow, ov, sw, sv, sym', _) := puff_construct_fill_step lf off sym n in
+      if l =? 0
+      then fill_symbols k sym' lengths loff offs symtab
+      else ' symtab1 <- wr symtab sw sv;; ' offs1 <- wr offs ow ov;; fill_symbols k sym' lengths loff offs1 symtab1).
+Proof. exact gen_construct_fill. Qed.
+Print Assumptions C07_gen_construct_fill.
+
+Theorem C07_gen_construct_fill_bounds :
+  forall (lf off : Z -> Z) (n : Z), puff_construct_fill_init = (0, 0) /\ puff_construct_fill_step lf off n n = (0, 0, 0, 0, n, 1).
+Proof. exact gen_construct_fill_bounds. Qed.
+Print Assumptions C07_gen_construct_fill_bounds.
+
+Theorem C07_gen_construct :
+  forall (h : huff) (lengths : list Z) (loff n : Z),
+    construct h lengths loff n =
+    ' cnt <- zero_counts 16 (fst puff_construct_zero_init) (h_count h);;
+    ' cnt0 <- count_lengths (Z.to_nat n) (fst puff_construct_count_init) lengths loff cnt;;
+    ' c0 <- rd cnt0 0;;
+    (let
+     '(retv, returned, _) := puff_construct_nocodes (fun _ : Z => c0) n in
+      if returned =? 1
+      then Ok (retv, {| h_count := cnt0; h_symbol := h_symbol h |})
+      else
+       ' r <- check_left 15 (fst puff_construct_left_init) cnt0 (fst puff_construct_left0);;
+       match r with
+       | inl lft => Ok (lft, {| h_count := cnt0; h_symbol := h_symbol h |})
+       | inr lft =>
+           let
+           '(widx, wval, _) := puff_construct_offs1 in
+            ' offs <- wr (repeat 0 16) widx wval;;
+            ' offs0 <- make_offs 14 (fst puff_construct_offs_init) cnt0 offs;;
+            ' symtab <- fill_symbols (Z.to_nat n) (fst puff_construct_fill_init) lengths loff offs0 (h_symbol h);;
+            (let '(rv, _, _) := puff_construct_done lft in Ok (rv, {| h_count := cnt0; h_symbol := symtab |}))
+       end).
+Proof. exact gen_construct. Qed.
+Print Assumptions C07_gen_construct.
+
+Theorem C07_gen_tables :
+  puff_lens_list = lens /\ puff_lext_list = lext /\ puff_dists_list = dists /\ puff_dext_list = dext /\ puff_order_list = order.
+Proof. exact gen_tables. Qed.
+Print Assumptions C07_gen_tables.
+
+Theorem C07_gen_codes_step :
+  forall (c : pcfg) (lc dc : huff) (s : pstate),
+    codes_step c lc dc s =
+    ' (symbol, s0) <- decode c lc s;;
+    (let
+     '(retv, returned, symbol0, _) := puff_codes_symbol symbol in
+      if returned =? 1
+      then Err retv
+      else
+       if puff_codes_is_literal symbol0
+       then codes_literal_m c s0 symbol0
+       else if puff_codes_is_length symbol0 then codes_length_m c dc s0 symbol0 else Ok (negb (puff_codes_again symbol0), s0)).
+Proof. exact gen_codes_step. Qed.
+Print Assumptions C07_gen_codes_step.
+
+Theorem C07_gen_codes_done :
+  puff_codes_done = (0, 1, 1).
+Proof. exact gen_codes_done. Qed.
+Print Assumptions C07_gen_codes_done.
+
+Theorem C07_gen_codes_literal :
+  forall (c : pcfg) (s : pstate) (symbol : Z),
+    codes_literal_m c s symbol =
+    (let
+     '(retv, returned, widx, wval, outcnt', _) := puff_codes_literal (if c_nil c then 0 else 1) (p_outcnt s) (c_outlen c) symbol in
+      if returned =? 1
+      then Err retv
+      else
+       if c_nil c
+       then
+        Ok
+          (false,
+           {| p_out := p_out s; p_outcnt := outcnt'; p_in := p_in s; p_incnt := p_incnt s; p_bitbuf := p_bitbuf s; p_bitcnt := p_bitcnt s |})
+       else
+        if (0 <=? widx) && (widx <? c_outcap c)
+        then
+         Ok
+           (false,
+            {|
+              p_out := wval :: p_out s; p_outcnt := outcnt'; p_in := p_in s; p_incnt := p_incnt s; p_bitbuf := p_bitbuf s; p_bitcnt := p_bitcnt s
+            |})
+        else Oob).
+Proof. exact gen_codes_literal. Qed.
+Print Assumptions C07_gen_codes_literal.
+
+Theorem C07_gen_codes_length :
+  forall symbol ln0 eb : Z,
+    257 <= symbol < 2 ^ 30 ->
+    0 <= eb < 2 ^ 20 ->
+    puff_codes_length symbol ln0 eb =
+    (if 29 <=? symbol - 257
+     then (-10, 1, 0, symbol - 257, ln0, 1)
+     else (0, 0, puff_lext (symbol - 257), symbol - 257, puff_lens (symbol - 257) + eb, 0)).
+Proof. exact gen_codes_length. Qed.
+Print Assumptions C07_gen_codes_length.
+
+Theorem C07_gen_codes_dist :
+  forall dsym dist0 eb2 outcnt : Z,
+    - 2 ^ 30 <= dsym < 2 ^ 30 ->
+    0 <= eb2 < 2 ^ 20 ->
+    puff_codes_dist dsym dist0 eb2 outcnt =
+    (if dsym <? 0
+     then (dsym, 1, 0, dsym, dist0, 1)
+     else
+      let dist := u32 (puff_dists dsym + eb2) in
+      if outcnt <? dist then (-11, 1, puff_dext dsym, dsym, dist, 1) else (0, 0, puff_dext dsym, dsym, dist, 0)).
+Proof. exact gen_codes_dist. Qed.
+Print Assumptions C07_gen_codes_dist.
+
+Theorem C07_gen_codes_copy :
+  forall (c : pcfg) (s : pstate) (ln dist : Z),
+    0 <= ln < 2 ^ 31 ->
+    codes_copy_m c s ln dist =
+    (if p_outcnt s <? dist
+     then Err (-11)
+     else
+      if puff_codes_writes (if c_nil c then 0 else 1)
+      then
+       let
+       '(retv, returned, _) := puff_codes_full (p_outcnt s) ln (c_outlen c) in
+        if returned =? 1 then Err retv else ' s1 <- copy_back (Z.to_nat ln) c s dist;; Ok (false, s1)
+      else
+       let
+       '(outcnt', _) := puff_codes_skip (p_outcnt s) ln in
+        Ok
+          (false,
+           {| p_out := p_out s; p_outcnt := outcnt'; p_in := p_in s; p_incnt := p_incnt s; p_bitbuf := p_bitbuf s; p_bitcnt := p_bitcnt s |})).
+Proof. exact gen_codes_copy. Qed.
+Print Assumptions C07_gen_codes_copy.
+
+Theorem C07_gen_codes_copy_step :
+  forall (k : nat) (c : pcfg) (s : pstate) (dist : Z) (outf : Z -> Z) (ln v : Z),
+    out_back s dist = Ok v ->
+    outf (p_outcnt s - dist) = v ->
+    byte v ->
+    0 < ln < 2 ^ 31 ->
+    0 <= dist <= p_outcnt s ->
+    p_outcnt s < 2 ^ 63 ->
+    copy_back (S k) c s dist =
+    (let
+     '(_, widx, wval, _, outcnt', _) := puff_codes_copy_step outf ln (p_outcnt s) dist in
+      if (0 <=? widx) && (widx <? c_outcap c)
+      then
+       copy_back k c
+         {| p_out := wval :: p_out s; p_outcnt := outcnt'; p_in := p_in s; p_incnt := p_incnt s; p_bitbuf := p_bitbuf s; p_bitcnt := p_bitcnt s |}
+         dist
+      else Oob).
+Proof. exact gen_codes_copy_step. Qed.
+Print Assumptions C07_gen_codes_copy_step.
+
+Theorem C07_gen_codes_copy_end :
+  forall (outf : Z -> Z) (outcnt dist : Z), puff_codes_copy_step outf 0 outcnt dist = (0, 0, 0, -1, outcnt, 1).
+Proof. exact gen_codes_copy_end. Qed.
+Print Assumptions C07_gen_codes_copy_end.
+
+Theorem C07_gen_dynamic_counts :
+  forall v1 v2 v3 : Z,
+    0 <= v1 < 32 ->
+    0 <= v2 < 32 ->
+    0 <= v3 < 16 ->
+    puff_dynamic_counts v1 v2 v3 =
+    (let bad := (MAXLCODES <? v1 + 257) || (MAXDCODES <? v2 + 1) in
+     (5, 5, 4, if bad then -3 else 0, if bad then 1 else 0, v1 + 257, v2 + 1, v3 + 4, if bad then 1 else 0)).
+Proof. exact gen_dynamic_counts. Qed.
+Print Assumptions C07_gen_dynamic_counts.
+
+Theorem C07_gen_dynamic_head :
+  forall (c : pcfg) (s : pstate),
+    dynamic c s =
+    ' (v1, s0) <- bits c s 5;;
+    ' (v2, s1) <- bits c s0 5;;
+    ' (v3, s2) <- bits c s1 4;;
+    (if (MAXLCODES <? v1 + 257) || (MAXDCODES <? v2 + 1)
+     then Err (-3)
+     else
+      let nlen := v1 + 257 in
+      let ndist := v2 + 1 in
+      let ncode := v3 + 4 in
+      ' (s3, lengths) <- read_cl (Z.to_nat ncode) (fst puff_dynamic_read_init) c s2 (repeat 0 316);;
+      ' lengths0 <- zero_cl (Z.to_nat (19 - ncode)) ncode lengths;;
+      ' (err, lencode) <- construct {| h_count := repeat 0 16; h_symbol := repeat 0 286 |} lengths0 0 19;;
+      (let
+       '(_, retv, returned, _, index, _) := puff_dynamic_clcode err 0 in
+        if returned =? 1
+        then Err retv
+        else
+         ' (s4, lengths1) <- read_lengths 320 c lencode s3 lengths0 index nlen ndist;;
+         ' l256 <- rd lengths1 256;;
+         (let
+          '(retv0, returned0, _) := puff_dynamic_eob (fun _ : Z => l256) in
+           if returned0 =? 1
+           then Err retv0
+           else
+            ' (err0, lencode0) <- construct lencode lengths1 0 nlen;;
+            ' c0 <- rd (h_count lencode0) 0;;
+            ' c1 <- rd (h_count lencode0) 1;;
+            (if negb (err0 =? 0) && ((err0 <? 0) || negb (nlen =? c0 + c1))
+             then Err (-7)
+             else
+              ' (err1, distcode) <- construct {| h_count := repeat 0 16; h_symbol := repeat 0 30 |} lengths1 nlen ndist;;
+              ' d0 <- rd (h_count distcode) 0;;
+              ' d1 <- rd (h_count distcode) 1;;
+              (if negb (err1 =? 0) && ((err1 <? 0) || negb (ndist =? d0 + d1))
+               then Err (-8)
+               else let '(_, _, _) := puff_dynamic_codes 0 in codes c lencode0 distcode s4))))).
+Proof. exact gen_dynamic_head. Qed.
+Print Assumptions C07_gen_dynamic_head.
+
+Theorem C07_gen_dynamic_read :
+  forall (k : nat) (index : Z) (c : pcfg) (s : pstate) (lengths : list Z) (ncode : Z),
+    0 <= index < ncode ->
+    ncode <= 19 ->
+    (forall (v : Z) (s1 : pstate), bits c s 3 = Ok (v, s1) -> 0 <= v < 8) ->
+    read_cl (S k) index c s lengths =
+    ' (v, s1) <- bits c s 3;;
+    (let
+     '(arg1, widx, wval, index', _) := puff_dynamic_read_step index ncode v in
+      if negb (arg1 =? 3)
+      then NoFuel
+      else ' o <- rd order index;; (if negb (o =? widx) then NoFuel else ' l1 <- wr lengths widx wval;; read_cl k index' c s1 l1)).
+Proof. exact gen_dynamic_read. Qed.
+Print Assumptions C07_gen_dynamic_read.
+
+Theorem C07_gen_dynamic_zero :
+  forall (k : nat) (index : Z) (lengths : list Z),
+    0 <= index < 19 ->
+    zero_cl (S k) index lengths =
+    (let
+     '(widx, wval, index', _) := puff_dynamic_zero_step index in
+      ' o <- rd order index;; (if negb (o =? widx) then NoFuel else ' l1 <- wr lengths widx wval;; zero_cl k index' l1)).
+Proof. exact gen_dynamic_zero. Qed.
+Print Assumptions C07_gen_dynamic_zero.
+
+Theorem C07_gen_dynamic_loops_end :
+  forall ncode v : Z, puff_dynamic_read_step ncode ncode v = (0, 0, 0, ncode, 1) /\ puff_dynamic_zero_step 19 = (0, 0, 19, 1).
+Proof. exact gen_dynamic_loops_end. Qed.
+Print Assumptions C07_gen_dynamic_loops_end.
+
+Theorem C07_gen_dynamic_lengths_step :
+  forall (lf : Z -> Z) (index nlen ndist sym0 len0 dsym b1 b2 b3 : Z),
+    0 <= index < 2 ^ 20 ->
+    0 <= nlen < 2 ^ 20 ->
+    0 <= ndist < 2 ^ 20 ->
+    - 2 ^ 20 <= dsym < 2 ^ 20 ->
+    0 <= b1 < 4 ->
+    0 <= b2 < 8 ->
+    0 <= b3 < 128 ->
+    puff_dynamic_lengths_step lf index nlen ndist sym0 len0 dsym b1 b2 b3 = lengths_step_m lf index nlen ndist sym0 len0 dsym b1 b2 b3.
+Proof. exact gen_dynamic_lengths_step. Qed.
+Print Assumptions C07_gen_dynamic_lengths_step.
+
+Theorem C07_gen_dynamic_lengths_model :
+  forall (f : nat) (c : pcfg) (lc : huff) (s : pstate) (lengths : list Z) (index nlen ndist : Z) (lf : Z -> Z),
+    read_lengths (S f) c lc s lengths index nlen ndist =
+    (if negb (index <? nlen + ndist)
+     then Ok (s, lengths)
+     else
+      ' (dsym, s1) <- decode c lc s;;
+      (if dsym <? 16
+       then
+        let
+        '(retv, returned, widx, wval, _, _, _, _, _, index', _, _) := lengths_step_m lf index nlen ndist 0 0 dsym 0 0 0 in
+         if returned =? 1 then Err retv else ' l1 <- wr lengths widx wval;; read_lengths f c lc s1 l1 index' nlen ndist
+       else
+        ' (ln, symbol, s2) <-
+        (if dsym =? 16
+         then if index =? 0 then Err (-5) else ' l <- rd lengths (index - 1);; ' (v, s2) <- bits c s1 2;; Ok (l, 3 + v, s2)
+         else if dsym =? 17 then ' (v, s2) <- bits c s1 3;; Ok (0, 3 + v, s2) else ' (v, s2) <- bits c s1 7;; Ok (0, 11 + v, s2));;
+        (if nlen + ndist <? index + symbol
+         then Err (-6)
+         else ' l1 <- repeat_len (Z.to_nat symbol) index ln lengths;; read_lengths f c lc s2 l1 (index + symbol) nlen ndist))).
+Proof. exact gen_dynamic_lengths_model. Qed.
+Print Assumptions C07_gen_dynamic_lengths_model.
+
+Theorem C07_gen_dynamic_repeat :
+  forall (k : nat) (index v : Z) (lengths : list Z) (sym : Z),
+    0 < sym < 2 ^ 31 ->
+    0 <= index < 2 ^ 30 ->
+    -32768 <= v < 32768 ->
+    repeat_len (S k) index v lengths =
+    (let '(_, widx, wval, _, index', _) := puff_dynamic_repeat_step sym index v in ' l1 <- wr lengths widx wval;; repeat_len k index' v l1).
+Proof. exact gen_dynamic_repeat. Qed.
+Print Assumptions C07_gen_dynamic_repeat.
+
+Theorem C07_gen_dynamic_repeat_end :
+  forall index v : Z, puff_dynamic_repeat_step 0 index v = (0, 0, 0, -1, index, 1).
+Proof. exact gen_dynamic_repeat_end. Qed.
+Print Assumptions C07_gen_dynamic_repeat_end.
+
+Theorem C07_gen_dynamic_lencode :
+  forall (cf : Z -> Z) (nlen err : Z),
+    - 2 ^ 30 <= cf 0 + cf 1 < 2 ^ 30 ->
+    puff_dynamic_lencode cf nlen err =
+    (let bad := negb (err =? 0) && ((err <? 0) || negb (nlen =? cf 0 + cf 1)) in
+     (nlen, if bad then -7 else 0, if bad then 1 else 0, err, if bad then 1 else 0)).
+Proof. exact gen_dynamic_lencode. Qed.
+Print Assumptions C07_gen_dynamic_lencode.
+
+Theorem C07_gen_dynamic_distcode :
+  forall (cf : Z -> Z) (lengths nlen ndist err : Z),
+    - 2 ^ 30 <= cf 0 + cf 1 < 2 ^ 30 ->
+    puff_dynamic_distcode cf lengths nlen ndist err =
+    (let bad := negb (err =? 0) && ((err <? 0) || negb (ndist =? cf 0 + cf 1)) in
+     (lengths + nlen, ndist, if bad then -8 else 0, if bad then 1 else 0, err, if bad then 1 else 0)).
+Proof. exact gen_dynamic_distcode. Qed.
+Print Assumptions C07_gen_dynamic_distcode.
+
+Theorem C07_gen_puff_init :
+  forall dest destlen source sourcelen : Z, puff_init dest destlen source sourcelen = (dest, destlen, 0, source, sourcelen, 0, 0, 0, 0).
+Proof. exact gen_puff_init. Qed.
+Print Assumptions C07_gen_puff_init.
+
+Theorem C07_gen_puff_block_values :
+  forall last type r0 r1 r2 : Z,
+    puff_block_step last type r0 r1 r2 =
+    (let err := if type =? 0 then r0 else if type =? 1 then r1 else if type =? 2 then r2 else -1 in
+     (1, 2, last, type, err, if negb (err =? 0) then 1 else if negb (last =? 0) then 1 else 0)).
+Proof. exact gen_puff_block_values. Qed.
+Print Assumptions C07_gen_puff_block_values.
+
+Theorem C07_gen_puff_block_step :
+  forall (c : pcfg) (s : pstate),
+    block_step c s =
+    ' (last, s0) <- bits c s 1;;
+    ' (type, s1) <- bits c s0 2;;
+    (let r := if type =? 0 then stored c s1 else if type =? 1 then fixed c s1 else if type =? 2 then dynamic c s1 else Err (-1) in
+     match r with
+     | Ok s' => let '(_, _, _, _, _, stop) := puff_block_step last type 0 0 0 in Ok (stop =? 1, s')
+     | Err e => Err e
+     | Oob => Oob
+     | NoFuel => NoFuel
+     end).
+Proof. exact gen_puff_block_step. Qed.
+Print Assumptions C07_gen_puff_block_step.
+
+Theorem C07_gen_puff_finish :
+  forall err destlen sourcelen outcnt incnt : Z,
+    puff_finish err destlen sourcelen outcnt incnt = (err, 1, if err <=? 0 then outcnt else destlen, if err <=? 0 then incnt else sourcelen, 1).
+Proof. exact gen_puff_finish. Qed.
+Print Assumptions C07_gen_puff_finish.
+
+Theorem C07_gen_puff_jump :
+  puff_jump_error = (2, 0) /\ (forall r : Z, puff_came_back r = negb (r =? 0)).
+Proof. exact gen_puff_jump. Qed.
+Print Assumptions C07_gen_puff_jump.
+
+Theorem C07_gen_b64_step_a :
+  forall (pc : Z) (pt : list Z) (c : Z),
+    0 <= dec_value c < 64 ->
+    dec_char Sa pc pt c = (let '(widx, wval, _) := b64d_step_a_store pc (dec_value c) in ' pt1 <- wr pt widx (u8 wval);; Ok (Sb, pc, pt1)).
+Proof. exact gen_b64_step_a. Qed.
+Print Assumptions C07_gen_b64_step_a.
+
+Theorem C07_gen_b64_step_b :
+  forall (pc : Z) (pt : list Z) (c : Z) (pt_at : Z -> Z),
+    0 <= dec_value c < 64 ->
+    (forall v : Z, rd pt pc = Ok v -> byte v /\ pt_at pc = s8 v) ->
+    dec_char Sb pc pt c =
+    (let
+     '(w1, v1, w2, v2, pc', _) := b64d_step_b_store pt_at pc (dec_value c) in
+      ' _ <- rd pt pc;; ' pt1 <- wr pt w1 (u8 v1);; ' pt2 <- wr pt1 w2 (u8 v2);; Ok (Sc, pc', pt2)).
+Proof. exact gen_b64_step_b. Qed.
+Print Assumptions C07_gen_b64_step_b.
+
+Theorem C07_gen_b64_step_c :
+  forall (pc : Z) (pt : list Z) (c : Z) (pt_at : Z -> Z),
+    0 <= dec_value c < 64 ->
+    (forall v : Z, rd pt pc = Ok v -> byte v /\ pt_at pc = s8 v) ->
+    dec_char Sc pc pt c =
+    (let
+     '(w1, v1, w2, v2, pc', _) := b64d_step_c_store pt_at pc (dec_value c) in
+      ' _ <- rd pt pc;; ' pt1 <- wr pt w1 (u8 v1);; ' pt2 <- wr pt1 w2 (u8 v2);; Ok (Sd, pc', pt2)).
+Proof. exact gen_b64_step_c. Qed.
+Print Assumptions C07_gen_b64_step_c.
+
+Theorem C07_gen_b64_step_d :
+  forall (pc : Z) (pt : list Z) (c : Z) (pt_at : Z -> Z),
+    0 <= dec_value c < 64 ->
+    (forall v : Z, rd pt pc = Ok v -> byte v /\ pt_at pc = s8 v) ->
+    dec_char Sd pc pt c =
+    (let '(w1, v1, pc', _) := b64d_step_d_store pt_at pc (dec_value c) in ' _ <- rd pt pc;; ' pt1 <- wr pt w1 (u8 v1);; Ok (Sa, pc', pt1)).
+Proof. exact gen_b64_step_d. Qed.
+Print Assumptions C07_gen_b64_step_d.
+
+Theorem C07_gen_b64_fetch :
+  forall (pt_at code_at : Z -> Z) (codechar code_in length_in st plainchar plaintext_out fragment ret st_step st_plain : Z),
+    let r :=
+      if codechar =? code_in + length_in
+      then (u64 (s64 (plainchar - plaintext_out)), 1, 0, u32 st, pt_at plainchar, fragment, codechar, 1)
+      else (0, 0, code_at codechar, st_step, st_plain, ret, codechar + 1, if negb (ret <? 0) then 1 else 0) in
+    b64d_step_a_fetch pt_at code_at codechar code_in length_in st plainchar plaintext_out fragment ret st_step st_plain = r /\
+    b64d_step_b_fetch pt_at code_at codechar code_in length_in st plainchar plaintext_out fragment ret st_step st_plain = r /\
+    b64d_step_c_fetch pt_at code_at codechar code_in length_in st plainchar plaintext_out fragment ret st_step st_plain = r /\
+    b64d_step_d_fetch pt_at code_at codechar code_in length_in st plainchar plaintext_out fragment ret st_step st_plain = r.
+Proof. exact gen_b64_fetch. Qed.
+Print Assumptions C07_gen_b64_fetch.
+
+Theorem C07_gen_b64_enter :
+  forall (code pt : list Z) (st : dstate),
+    decode_block code pt st =
+    (let
+     '(widx, wval, _) := b64d_enter 0 (d_plain st) in
+      ' pt0 <- wr pt widx wval;;
+      ' (s1, pc1, pt1) <- dec_chars code (d_step st) 0 pt0;; ' v <- rd pt1 pc1;; Ok (pc1, pt1, {| d_step := s1; d_plain := v |})).
+Proof. exact gen_b64_enter. Qed.
+Print Assumptions C07_gen_b64_enter.
+
+Theorem C07_gen_b64_skip :
+  forall (stp : dstep) (pc : Z) (pt : list Z) (c : Z), dec_value c < 0 -> dec_char stp pc pt c = Ok (stp, pc, pt).
+Proof. exact gen_b64_skip. Qed.
+Print Assumptions C07_gen_b64_skip.
+
+Theorem C07_gen_nonu_header :
+  forall (src_at : Z -> Z) (a b src_size u0 u1 p : Z),
+    byte a ->
+    byte b ->
+    u8 (src_at 0) = a ->
+    u8 (src_at 1) = b ->
+    2 <= src_size < 2 ^ 63 ->
+    nonu_header src_at src_size u0 u1 p =
+    (if negb (Z.land a 143 =? 8)
+     then (-1, 1, a, u1, p, src_size, 1)
+     else
+      if negb ((u32 (shl a 8) + b) mod 31 =? 0)
+      then (-1, 1, a, b, p, src_size, 1)
+      else if negb (Z.land b 32 =? 0) then (-1, 1, a, b, p, src_size, 1) else (0, 0, a, b, p + 2, src_size - 2, 0)).
+Proof. exact gen_nonu_header. Qed.
+Print Assumptions C07_gen_nonu_header.
+
+Theorem C07_gen_nonu_model :
+  forall (a b : Z) (rest : list Z) (dest_size dest_cap : Z) (dest_nil : bool),
+    byte a ->
+    byte b ->
+    len rest < 2 ^ 62 ->
+    nonuncompress (a :: b :: rest) dest_size dest_cap dest_nil =
+    (let
+     '(retv, returned, _, _, p, ssz, _) := nonu_header (fun k : Z => if k =? 0 then a else b) (len (a :: b :: rest)) 0 0 0 in
+      if returned =? 1 then Err retv else if negb ((p =? 2) && (ssz =? len rest)) then NoFuel else nonu_body rest dest_size dest_cap dest_nil).
+Proof. exact gen_nonu_model. Qed.
+Print Assumptions C07_gen_nonu_model.
+
+Theorem C07_gen_nonu_block :
+  forall src_size dl0 sl0 adler src dest dest_size fb puff_ret dl sl adler' : Z,
+    nonu_block src_size dl0 sl0 adler src dest dest_size fb puff_ret dl sl adler' =
+    (if src_size <? 5
+     then (-1, 1, 0, dl0, sl0, adler, src, src_size, dest, dest_size, fb, 1)
+     else
+      if negb (puff_ret =? 0)
+      then (-1, 1, 0, dl, sl, adler, src, src_size, dest, dest_size, fb, 1)
+      else
+       if negb (dl =? dest_size) || negb (sl =? u64 (src_size - 4))
+       then (-1, 1, 0, dl, sl, adler, src, src_size, dest, dest_size, fb, 1)
+       else (0, 0, dest_size, dl, sl, adler', src + sl, 4, dest + dl, 0, 1, 1)).
+Proof. exact gen_nonu_block. Qed.
+Print Assumptions C07_gen_nonu_block.
+
+Theorem C07_gen_nonu_trailer :
+  forall (src_at : Z -> Z) (t0 t1 t2 t3 adler : Z),
+    byte t0 ->
+    byte t1 ->
+    byte t2 ->
+    byte t3 ->
+    0 <= adler < 2 ^ 32 ->
+    src_at 0 = s8 t0 ->
+    src_at 1 = s8 t1 ->
+    src_at 2 = s8 t2 ->
+    src_at 3 = s8 t3 -> nonu_trailer src_at 4 0 adler = (if list_eq_dec Z.eq_dec [t0; t1; t2; t3] (be4 adler) then (0, 1, 1) else (-1, 1, 1)).
+Proof. exact gen_nonu_trailer. Qed.
+Print Assumptions C07_gen_nonu_trailer.
+
+Theorem C07_gen_info_tests :
+  forall n r : Z,
+    info_short n = (if n <? 12 then (-1, 1, 1) else (0, 0, 0)) /\
+    info_decode12 r = (0, 12, 12, if negb (r =? 9) then -1 else 0, if negb (r =? 9) then 1 else 0, r, if negb (r =? 9) then 1 else 0).
+Proof. exact gen_info_tests. Qed.
+Print Assumptions C07_gen_info_tests.
+
+Theorem C07_gen_info_model :
+  forall data : list Z,
+    sc_decode_info data =
+    (let
+     '(retv, returned, _) := info_short (len data) in
+      if returned =? 1
+      then Err retv
+      else
+       ' code <- slice data 0 12;;
+       ' (osize, dec, _) <- decode_block code (repeat 0 12) d_init;;
+       (let
+        '(_, n1, n2, retv0, returned0, _, _) := info_decode12 osize in
+         if negb ((n1 =? 12) && (n2 =? 12))
+         then NoFuel
+         else if returned0 =? 1 then Err retv0 else ' hdr <- slice dec 0 8;; ' fc <- rd dec 8;; Ok (be_value hdr 0, fc))).
+Proof. exact gen_info_model. Qed.
+Print Assumptions C07_gen_info_model.
+
+Theorem C07_gen_info_size_step :
+  forall (dec : Z -> Z) (i uc osize x : Z) (r : list Z),
+    0 <= i < 8 ->
+    len r = 7 - i ->
+    byte x ->
+    u8 (dec i) = x ->
+    info_size_step dec i uc osize = (x, Z.lor osize (u64 (shl x (Z.of_nat (length r) * 8))), i + 1, 0) /\
+    be_value (x :: r) osize = be_value r (Z.lor osize (u64 (shl x (Z.of_nat (length r) * 8)))) /\
+    dec_size_step dec i osize = (Z.lor osize (u64 (shl x (Z.of_nat (length r) * 8))), i + 1, 0).
+Proof. exact gen_info_size_step. Qed.
+Print Assumptions C07_gen_info_size_step.
+
+Theorem C07_gen_size_loop_end :
+  forall (dec : Z -> Z) (uc osize : Z), info_size_step dec 8 uc osize = (uc, osize, 8, 1) /\ dec_size_step dec 8 osize = (osize, 8, 1).
+Proof. exact gen_size_loop_end. Qed.
+Print Assumptions C07_gen_size_loop_end.
+
+Theorem C07_gen_info_format :
+  forall (dec : Z -> Z) (p : Z), info_format dec p = (p, dec 8, 0).
+Proof. exact gen_info_format. Qed.
+Print Assumptions C07_gen_info_format.
+
+Theorem C07_gen_decode_tail :
+  forall (unc : list Z -> Z -> Z -> bool -> res (list Z)) (data : list Z) (out : outdesc) (maxsz : Z),
+    sc_decode_with unc data out maxsz =
+    (let encoded_size := len data in
+     if encoded_size =? 0
+     then Err (-1)
+     else
+      ' last <- rd data (encoded_size - 1);;
+      (if negb (last =? 0)
+       then Err (-1)
+       else
+        let lines := dec_base64_lines encoded_size in
+        let csize := dec_compressed_size lines in
+        if dec_guard_short encoded_size lines
+        then Err (-1)
+        else
+         let irem := dec_irem encoded_size lines in
+         ' (comp, ocnt) <- dec_lines (Z.to_nat lines) encoded_size data 0 irem 0 lines [] 0 csize (repeat 0 76) d_init;;
+         decode_tail unc comp ocnt out maxsz)).
+Proof. exact gen_decode_tail. Qed.
+Print Assumptions C07_gen_decode_tail.
+
+Theorem C07_gen_decode_lines :
+  forall (k : nat) (dlen : Z) (irest : list Z) (ipos irem zlin lines : Z) (rcomp : list Z) (ocnt csize : Z) (pt : list Z) (bst : dstate),
+    dec_lines (S k) dlen irest ipos irem zlin lines rcomp ocnt csize pt bst =
+    (let lein := dec_lein irem in
+     if negb ((0 <=? ipos) && (ipos + lein <=? dlen))
+     then Oob
+     else
+      let code := firstn (Z.to_nat lein) irest in
+      ' (lout, pt1, bst1) <- decode_block code pt bst;;
+      (if dec_line_empty lout
+       then Err (-1)
+       else
+        if dec_line_not_last zlin lines
+        then
+         if dec_line_mismatch lout
+         then Err (-1)
+         else
+          let
+          '(n, ipos', irem', _, ocnt', _) := dec_line_full ipos irem 0 ocnt in
+           ' comp1 <- comp_append rcomp ocnt csize pt1 n;;
+           dec_lines k dlen (skipn 78 irest) ipos' irem' (zlin + 1) lines comp1 ocnt' csize pt1 bst1
+        else
+         let
+         '(n, ipos', irem', _, ocnt', _) := dec_line_last lout ipos lein irem 0 ocnt in
+          ' comp1 <- comp_append rcomp ocnt csize pt1 n;;
+          dec_lines k dlen (skipn (Z.to_nat (lein + 2)) irest) (if lein + 2 =? u64 (lein + 2) then ipos' else ipos + (lein + 2)) irem' 
+            (zlin + 1) lines comp1 ocnt' csize pt1 bst1)).
+Proof. exact gen_decode_lines. Qed.
+Print Assumptions C07_gen_decode_lines.
+
+Theorem C07_gen_decode_loop_test :
+  forall zlin lines : Z, dec_more_lines zlin lines = (zlin <? lines).
+Proof. exact gen_decode_loop_test. Qed.
+Print Assumptions C07_gen_decode_loop_test.
+
